@@ -210,6 +210,8 @@ pub struct IinModel {
     pub bcast_dont_care: bool,
     /// the pending confirm-mandatory broadcast has been reported in at least one response
     pub bcast_reported: bool,
+    /// compare the overflow indication only (C03: a displaced event is lost *reported*)
+    pub overflow_only: bool,
 }
 
 impl IinModel {
@@ -241,6 +243,7 @@ impl IinModel {
             pending: Vec::new(),
             bcast_dont_care: false,
             bcast_reported: false,
+            overflow_only: false,
         }
     }
 }
@@ -630,7 +633,15 @@ impl Ledger {
                     m.bcast = None;
                     m.bcast_dont_care = false;
                 }
-                if (r.iin1 ^ e1) & mask1 != 0 || got2 != e2 {
+                if m.overflow_only {
+                    if (got2 ^ e2) & app::iin2::EVENT_BUFFER_OVERFLOW != 0 {
+                        return Some(Violation::new(
+                            "C03.V1",
+                            if e2 & app::iin2::EVENT_BUFFER_OVERFLOW != 0 { "displacement-not-reported" } else { "overflow-reported-without-displacement" },
+                            format!("response {} : IIN2={:02X}; an event was displaced and no confirmation has since left every type below capacity: {}", app::hex(&r.raw[..4]), r.iin2, e2 & app::iin2::EVENT_BUFFER_OVERFLOW != 0),
+                        ));
+                    }
+                } else if (r.iin1 ^ e1) & mask1 != 0 || got2 != e2 {
                     let d1 = (r.iin1 ^ e1) & mask1;
                     let d2 = got2 ^ e2;
                     let mut names = Vec::new();
@@ -714,6 +725,8 @@ pub struct C03 {
     pub buf: u16,
     pub cto: bool,
     pub retries: Option<usize>,
+    /// also follow the overflow indication (clause V1)
+    pub overflow_model: bool,
 }
 
 pub fn setup_db(sim: &mut OSim, cto: bool) {
@@ -1135,6 +1148,11 @@ impl Scenario for C03 {
         let mut obs = Hasher::default();
         let cfg = self.cfg();
         let mut d = start(&cfg, self.unsol, self.cto);
+        if self.overflow_model {
+            let mut m = IinModel::new(cfg.event_buf[0] as usize);
+            m.overflow_only = true;
+            d.ledger.iin = Some(m);
+        }
         for &i in path {
             if let Some(v) = d.apply(&self.alphabet[i], &mut res, &mut obs, transcript) {
                 res.violation = Some(v);
@@ -1162,6 +1180,7 @@ fn scenarios(tier: &str) -> Vec<C03> {
         buf,
         cto,
         retries,
+        overflow_model: false,
     };
     let mut v = vec![
         mk("poll-d4-buf5", alphabet(false, true), 4, false, 5, false, Some(0)),
@@ -1170,7 +1189,24 @@ fn scenarios(tier: &str) -> Vec<C03> {
         mk("unsol-d4-buf1", alphabet(true, false), 4, true, 1, false, Some(0)),
         mk("unsol-d3-buf2-cto-retry1", alphabet(true, true), 3, true, 2, true, Some(1)),
     ];
+    // a displaced event is lost *reported*: the overflow indication from a discard until a
+    // confirmation leaves every type below capacity
+    let ovf = vec![Ev::Upd(Pt::A0), Ev::Upd(Pt::C0), Ev::Read(false, true, false, None), Ev::SolConfirm(true), Ev::Other, Ev::Read(true, true, true, None), Ev::Upd(Pt::B0), Ev::Upd(Pt::B1)];
+    let mut s = mk("overflow-reported-d5-buf1", ovf.clone(), 5, false, 1, false, Some(0));
+    s.overflow_model = true;
+    v.push(s);
+    // an unsolicited response that was never confirmed, then a confirmation of something else
+    // (the answer to a request after a confirm-mandatory broadcast asks for one)
+    let bc = vec![Ev::Upd(Pt::B0), Ev::Timeout, Ev::Broadcast(1), Ev::Other, Ev::SolConfirm(true), Ev::UnsConfirm(true), Ev::Disable, Ev::Read(true, false, false, None)];
+    v.push(mk("unsol-broadcast-d5-buf5", bc.clone(), 5, true, 5, false, Some(0)));
     if tier == "thorough" {
+        let mut s = mk("overflow-reported-d6-buf2", ovf.clone(), 6, false, 2, false, Some(0));
+        s.overflow_model = true;
+        v.push(s);
+        let mut s = mk("overflow-reported-d6-buf1-unsol", { let mut a = ovf.clone(); a.extend([Ev::UnsConfirm(true), Ev::Timeout]); a }, 6, true, 1, false, Some(0));
+        s.overflow_model = true;
+        v.push(s);
+        v.push(mk("unsol-broadcast-d6-buf1-retry1", { let mut a = bc.clone(); a.extend([Ev::Broadcast(0), Ev::Upd(Pt::B1)]); a }, 6, true, 1, false, Some(1)));
         v.push(mk("unsol-d5-buf1", alphabet(true, true), 5, true, 1, false, Some(0)));
         v.push(mk("unsol-d5-buf2-retry1", alphabet(true, true), 5, true, 2, false, Some(1)));
         v.push(mk("poll-d5-buf2-cto", alphabet(false, true), 5, false, 2, true, Some(0)));
